@@ -391,8 +391,22 @@ def execute(scenario: Callable[[Sim], None], ch: Chooser) -> dict[str, Any]:
                 res.update(status="harness_error", error=f"{type(e).__name__}: {e}",
                            tb=traceback.format_exc()[-3000:])
             except Exception as e:  # pylint: disable=broad-except
-                res.update(status="harness_error", error=f"{type(e).__name__}: {e}",
-                           tb=traceback.format_exc()[-3000:])
+                # An exception that escapes to the top of the scenario.  If it was raised *inside the SDK* (innermost
+                # frame in the source tree under test) by an operation the harness issued - all of which are meant to
+                # be inside the property's quantifier - the SDK failed a legal call: reported as a violation (clause
+                # sdk_raised), not as a broken harness.  Anything raised by harness code stays a harness error.
+                tb_ = e.__traceback__
+                while tb_ is not None and tb_.tb_next is not None:
+                    tb_ = tb_.tb_next
+                fn_ = tb_.tb_frame.f_code.co_filename if tb_ is not None else ""
+                src_root = os.path.realpath(os.environ.get("VERIF_REPO_SRC", "/repo/src"))
+                if os.path.realpath(fn_).startswith(src_root + os.sep):
+                    sim.soft_violation("sdk_raised", {"exception": type(e).__name__, "in": tb_.tb_frame.f_code.co_name},  # type: ignore[union-attr]
+                                       f"{type(e).__name__}: {e} raised by {os.path.relpath(fn_, src_root)}:"
+                                       f"{tb_.tb_lineno} into the caller\n" + traceback.format_exc()[-1500:])  # type: ignore[union-attr]
+                else:
+                    res.update(status="harness_error", error=f"{type(e).__name__}: {e}",
+                               tb=traceback.format_exc()[-3000:])
             if sim.violations and res["status"] == "ok":
                 res["status"] = "violation"
             res["violations"] = [{k: v for k, v in d.items() if k != "_key"} for d in sim.violations]
